@@ -43,6 +43,7 @@ def gen_workflow(r: Any, name: str, k0: int, async_flag: bool, reorder: bool = F
     pad = r.choice(["x", "x", " ", "  y", "\t"])
     spans = []
     n_traces = r.choice([2, 3, 4])
+    nested_all = r.random() < 0.5
     # reorder: the calls keep their names and stored order but run in another order in some traces; the traces
     # then differ only in their links, never in the list of event types
     for t in range(n_traces):
@@ -52,7 +53,7 @@ def gen_workflow(r: Any, name: str, k0: int, async_flag: bool, reorder: bool = F
         spans.append({"job_name": name, "job_id": jid, "event_type": f"{name[:1].upper()}A", "event_id": rid,
                       "start_timestamp": str(st), "end_timestamp": str(st + 9000), "application_name": "app " + name,
                       "parent_event_id": None})
-        variant = t % 2
+        variant = 0 if reorder else t % 2     # reorder: every trace lists the same event types
         slots = list(range(len(kids)))
         if reorder and t > 0:
             r.shuffle(slots)
@@ -70,7 +71,7 @@ def gen_workflow(r: Any, name: str, k0: int, async_flag: bool, reorder: bool = F
             spans.append({"job_name": name, "job_id": jid, "event_type": typ, "event_id": cid,
                           "start_timestamp": str(cs), "end_timestamp": str(ce), "application_name": "app " + name,
                           "parent_event_id": rid})
-            if i == 1 and r.random() < 0.5:
+            if i == 1 and (nested_all if reorder else r.random() < 0.5):
                 spans.append({"job_name": name, "job_id": jid, "event_type": kt + "n", "event_id": cid + ".n",
                               "start_timestamp": str(cs + 10), "end_timestamp": str(cs + 20),
                               "application_name": "app " + name, "parent_event_id": cid})
@@ -203,42 +204,201 @@ def same_process_part(ctx: Ctx, tmp: str, quick: bool) -> None:
             trace(plain, f"{plain}-p{t}", (k * 10 + t) * 10**7, 1)
         for t, n in enumerate([1, 2]):
             trace(counted, f"{counted}-c{t}", (k * 10 + 5 + t) * 10**7, n)
-        case = {"names": [plain, counted], "spans": spans, "async": True, "mapping": None, "k": 10_000 + k, "seq_opts": {}}
-        p = write_inputs(tmp, case)
-        w = pvlib.Worker(0)
-        try:
-            def cli(argv: list[str]) -> dict[str, Any]:
-                w.send({"op": "cli", "argv": argv, "timeout": 120})
-                return w.recv()
-            r1 = cli(["-o", os.path.join(p["dir"], "out1"), "otel2puml", "-om", "-c", p["config"]])
-            r2 = cli(["-o", os.path.join(p["dir"], "out2"), "otel2pv", "-c", p["config"], "-se"])
-            r3 = {n: cli(["-o", os.path.join(p["dir"], "out3"), "pv2puml", "-om", "-fp", os.path.join(p["dir"], "out2", n),
-                          "-jn", n]) for n in (plain, counted)}
-        finally:
-            w.close()
         ctx.tick("same_process_cases")
         inp = {"spans": spans, "names": [plain, counted], "async": True, "same_process": True}
-        if any("error" in x or x.get("exit") for x in [r1, r2, *r3.values()]):
-            ctx.violation("a command fails when both routes run in one interpreter: "
-                          + " / ".join(str(x.get("error") or x.get("output", ""))[-80:] for x in [r1, r2, *r3.values()]
-                                       if "error" in x or x.get("exit")), {"input": inp}, key=("sameproc", k))
-            continue
-        stem = plain.replace(" ", "_")
-        with open(os.path.join(p["dir"], "out1", stem + ".puml")) as f1, \
-                open(os.path.join(p["dir"], "out3", stem + ".puml")) as f3:
-            t1, t3 = f1.read(), f3.read()
-        pa, pb = pvlib.lean([{"op": "dg.parse", "text": t1}, {"op": "dg.parse", "text": t3}])
-        bad = None
-        if pa.get("ok") != pb.get("ok"):
-            bad = "only one of the two routes gives a well-formed diagram"
-        elif pa.get("ok") and json.dumps(norm_blk(pa["blk"])) != json.dumps(norm_blk(pb["blk"])):
-            sub = pvlib.lean([{"op": "dg.subset", "learned": pa["blk"], "source": pb["blk"], "k": 2, "cap": 200},
-                              {"op": "dg.subset", "learned": pb["blk"], "source": pa["blk"], "k": 2, "cap": 200}])
-            if any(x.get("rejected") for x in sub):
-                bad = "otel2puml and otel2pv+pv2puml give diagrams with different languages"
+        bad, extra = same_process_case(tmp, spans, plain, counted, 10_000 + k)
         if bad:
-            ctx.violation(f"both routes in one interpreter, workflow {plain!r} (next to {counted!r}, same event names): {bad}",
-                          {"input": inp, "otel2puml": t1, "pv2puml": t3}, key=("sameproc", k))
+            ctx.violation(bad, {"input": inp, **extra}, key=("sameproc", k))
+
+
+def same_process_case(tmp: str, spans: list[dict[str, Any]], plain: str, counted: str, k: int) -> tuple[str | None, dict[str, Any]]:
+    case = {"names": [plain, counted], "spans": spans, "async": True, "mapping": None, "k": k, "seq_opts": {}}
+    p = write_inputs(tmp, case)
+    w = pvlib.Worker(0)
+    try:
+        def cli(argv: list[str]) -> dict[str, Any]:
+            w.send({"op": "cli", "argv": argv, "timeout": 120})
+            return w.recv()
+        r1 = cli(["-o", os.path.join(p["dir"], "out1"), "otel2puml", "-om", "-c", p["config"]])
+        r2 = cli(["-o", os.path.join(p["dir"], "out2"), "otel2pv", "-c", p["config"], "-se"])
+        r3 = {n: cli(["-o", os.path.join(p["dir"], "out3"), "pv2puml", "-om", "-fp", os.path.join(p["dir"], "out2", n),
+                      "-jn", n]) for n in (plain, counted)}
+    finally:
+        w.close()
+    if any("error" in x or x.get("exit") for x in [r1, r2, *r3.values()]):
+        return ("a command fails when both routes run in one interpreter: "
+                + " / ".join(str(x.get("error") or x.get("output", ""))[-80:] for x in [r1, r2, *r3.values()]
+                             if "error" in x or x.get("exit"))), {}
+    stem = plain.replace(" ", "_")
+    with open(os.path.join(p["dir"], "out1", stem + ".puml")) as f1, \
+            open(os.path.join(p["dir"], "out3", stem + ".puml")) as f3:
+        t1, t3 = f1.read(), f3.read()
+    pa, pb = pvlib.lean([{"op": "dg.parse", "text": t1}, {"op": "dg.parse", "text": t3}])
+    bad = None
+    if pa.get("ok") != pb.get("ok"):
+        bad = "only one of the two routes gives a well-formed diagram"
+    elif pa.get("ok") and json.dumps(norm_blk(pa["blk"])) != json.dumps(norm_blk(pb["blk"])):
+        sub = pvlib.lean([{"op": "dg.subset", "learned": pa["blk"], "source": pb["blk"], "k": 2, "cap": 200},
+                          {"op": "dg.subset", "learned": pb["blk"], "source": pa["blk"], "k": 2, "cap": 200}])
+        if any(x.get("rejected") for x in sub):
+            bad = "otel2puml and otel2pv+pv2puml give diagrams with different languages"
+    if bad:
+        return (f"both routes in one interpreter, workflow {plain!r} (next to {counted!r}, same event names): {bad}",
+                {"otel2puml": t1, "pv2puml": t3})
+    return None, {}
+
+
+def evaluate(ctx: Any, cases: list[dict[str, Any]], tmp: str) -> None:
+    """both routes through the real command line for every case; sets c["bad"] to what differs (None: nothing)"""
+    for c in cases:
+        c["paths"] = write_inputs(tmp, c)
+    # route 1, route 2a, and the in-memory stream
+    reqs = []
+    for c in cases:
+        p = c["paths"]
+        mc = ["-mc", p["mapping"]] if "mapping" in p else []
+        reqs.append({"op": "cli", "argv": ["-o", os.path.join(p["dir"], "out1"), "otel2puml", "-om", "-c", p["config"]],
+                     "hash_seed": 0, "timeout": 120})
+        reqs.append({"op": "cli", "argv": ["-o", os.path.join(p["dir"], "out2"), "otel2pv", "-c", p["config"], "-se"] + mc,
+                     "hash_seed": 0, "timeout": 120})
+        reqs.append({"op": "otel_to_pv", "config": p["config"], "hash_seed": 0, "timeout": 120})
+    reps = pvlib.run_requests(reqs)
+    for i, c in enumerate(cases):
+        c["r1"], c["r2a"], c["mem"] = reps[3 * i], reps[3 * i + 1], reps[3 * i + 2]
+    # route 2b: pv2puml per workflow folder
+    reqs, meta = [], []
+    for i, c in enumerate(cases):
+        p = c["paths"]
+        mc = ["-mc", p["mapping"]] if "mapping" in p else []
+        for n in c["names"]:
+            folder = os.path.join(p["dir"], "out2", n)
+            if os.path.isdir(folder):
+                reqs.append({"op": "cli", "argv": ["-o", os.path.join(p["dir"], "out3"), "pv2puml", "-om", "-fp", folder,
+                                                   "-jn", n] + mc, "hash_seed": 0, "timeout": 120})
+                meta.append((i, n))
+    reps = pvlib.run_requests(reqs)
+    for (i, n), rp in zip(meta, reps):
+        cases[i].setdefault("r2b", {})[n] = rp
+    # the saved files read back by the project's own loader
+    reqs = []
+    for c in cases:
+        fl = []
+        for n in c["names"]:
+            folder = os.path.join(c["paths"]["dir"], "out2", n)
+            fl += [os.path.join(folder, fn) for fn in sorted(os.listdir(folder))] if os.path.isdir(folder) else []
+        reqs.append({"op": "load_pv_files", "files": fl, "mapping": c["mapping"], "hash_seed": 0, "timeout": 60})
+    for c, rp in zip(cases, pvlib.run_requests(reqs)):
+        c["readback"] = rp
+    # collect
+    lean_reqs, lmeta = [], []
+    for i, c in enumerate(cases):
+        p = c["paths"]
+        c["bad"] = None
+        if c["reorder"] and ("error" in c["r1"] or c["r1"].get("exit")) and not (
+                "error" in c["r2a"] or c["r2a"].get("exit") or "error" in c["mem"]):
+            ctx.tick("reorder_learner_failed_in_otel2puml")
+            c["r1"] = {"exit": 0, "learner_failed": True}
+        if "error" in c["r1"] or c["r1"].get("exit") or "error" in c["r2a"] or c["r2a"].get("exit") or "error" in c["mem"]:
+            c["bad"] = (f"a route failed: otel2puml {c['r1'].get('error') or c['r1'].get('exit')}, otel2pv "
+                        f"{c['r2a'].get('error') or c['r2a'].get('exit')}, in-memory {c['mem'].get('error')}: "
+                        f"{(c['r1'].get('output') or '')[-200:]} {(c['r2a'].get('output') or '')[-200:]}")
+            continue
+        mp = c["mapping"] or {f: f for f in FIELDS}
+        mem: dict[str, list[list[dict[str, Any]]]] = {}
+        for name, job in c["mem"]["jobs"]:
+            mem.setdefault(name, []).append(sorted(job, key=lambda e: str(e.get("eventId"))))
+        files: dict[str, list[list[dict[str, Any]]]] = {}
+        raw_objs: list[dict[str, Any]] = []
+        for n in c["names"]:
+            folder = os.path.join(p["dir"], "out2", n)
+            for fn in sorted(os.listdir(folder)) if os.path.isdir(folder) else []:
+                with open(os.path.join(folder, fn)) as f:
+                    objs = json.load(f)
+                raw_objs += objs
+                files.setdefault(n, []).append(sorted(({k: o.get(mp[k], [] if k == "previousEventIds" else None)
+                                                        for k in FIELDS} for o in objs), key=lambda e: str(e.get("eventId"))))
+        key = lambda j: str(j[0].get("jobId")) if j else ""  # noqa: E731
+        if {n: sorted(v, key=key) for n, v in mem.items()} != {n: sorted(v, key=key) for n, v in files.items()}:
+            c["bad"] = "the saved PV files do not hold the events, links and field values of the in-memory stream"
+            continue
+        rb = c["readback"]
+        if "error" in rb:
+            c["bad"] = f"the saved PV files cannot be read back by pv_job_file_to_event_sequence: {rb['error'][:200]}"
+            continue
+        rbj = sorted((sorted(({k: e.get(k, []) for k in FIELDS} for e in j), key=lambda e: str(e.get("eventId")))
+                      for j in rb["jobs"]), key=key)
+        memj = sorted((j for js in mem.values() for j in js), key=key)
+        if rbj != [[{k: e.get(k, []) for k in FIELDS} for e in j] for j in memj]:
+            c["bad"] = ("the saved PV files, read back with the same mapping by the project's loader, do not give the "
+                        "events, links and field values of the in-memory stream")
+            continue
+        c["raw_objs"] = raw_objs
+        c["mem_events"] = [e for js in mem.values() for j in js for e in j]
+        lean_reqs.append({"op": "pvfile.roundtrip", "cfg": [mp[k] for k in CFG_ORDER],
+                          "events": c["mem_events"]})
+        lmeta.append(i)
+        for n in c["names"]:
+            f1 = os.path.join(p["dir"], "out1", n.replace(" ", "_") + ".puml")
+            f3 = os.path.join(p["dir"], "out3", n.replace(" ", "_") + ".puml")
+            r2b = c.get("r2b", {}).get(n, {"error": "no saved folder"})
+            m1, m3 = f1[:-5] + "_model.json", f3[:-5] + "_model.json"
+            if os.path.exists(m1) and os.path.exists(m3):
+                with open(m1) as fa, open(m3) as fb:
+                    ma, mb = json.load(fa), json.load(fb)
+                ctx.tick("model_files_compared")
+                if canon_file(ma) != canon_file(mb) or ma.get("job_name") != mb.get("job_name"):
+                    c["bad"] = (f"workflow {n!r}: the model file saved by otel2puml and the one saved by pv2puml on "
+                                f"the saved PV files differ (types, successor/predecessor sets or counts)")
+                    break
+            if c["reorder"]:
+                if c["r1"].get("learner_failed") or "error" in r2b or r2b.get("exit"):
+                    ctx.tick("reorder_learner_failed")
+                continue
+            if "error" in r2b or r2b.get("exit") or not os.path.exists(f1) or not os.path.exists(f3):
+                c["bad"] = (f"workflow {n!r}: pv2puml on the saved files failed or a diagram is missing "
+                            f"({r2b.get('error') or r2b.get('exit')}; {str(r2b.get('output'))[-200:]})")
+                break
+            c.setdefault("texts", {})[n] = (open(f1).read(), open(f3).read())
+    lres = pvlib.lean(lean_reqs) if lean_reqs else []
+    for i, lr in zip(lmeta, lres):
+        c = cases[i]
+        if "error" in lr:
+            ctx.broken_ties.append(f"model driver: {lr['error']}")
+            continue
+        want = sorted((json.dumps(o, sort_keys=True) for o in c["raw_objs"]))
+        got = sorted((json.dumps(o, sort_keys=True) for o in lr["saved"]))
+        if want != got:
+            ctx.violation("correspondence: Lean save model and the saved PV objects differ",
+                          {"input": {"mapping": c["mapping"]}, "model": lr["saved"][:3], "impl": c["raw_objs"][:3]},
+                          key=("corr", c["k"]), concrete=False)
+        elif sorted(json.dumps(e, sort_keys=True) for e in lr["loaded"]) != \
+                sorted(json.dumps({k: e[k] for k in FIELDS}, sort_keys=True) for e in c["mem_events"]):
+            ctx.violation("correspondence: Lean load model does not return the in-memory events",
+                          {"input": {"mapping": c["mapping"]}, "model": lr["loaded"][:3]}, key=("corrl", c["k"]),
+                          concrete=False)
+    # diagrams
+    preqs, pmeta = [], []
+    for i, c in enumerate(cases):
+        for n, (t1, t3) in c.get("texts", {}).items():
+            preqs += [{"op": "dg.parse", "text": t1}, {"op": "dg.parse", "text": t3}]
+            pmeta.append((i, n))
+    pres = pvlib.lean(preqs) if preqs else []
+    sreqs, smeta = [], []
+    ctx.cov["diagram_pairs_compared"] = len(pmeta)
+    for k, (i, n) in enumerate(pmeta):
+        a, b = pres[2 * k], pres[2 * k + 1]
+        c = cases[i]
+        if a.get("ok") != b.get("ok"):
+            c["bad"] = c["bad"] or f"workflow {n!r}: only one of the two routes gives a well-formed diagram"
+        elif a.get("ok") and json.dumps(norm_blk(a["blk"])) != json.dumps(norm_blk(b["blk"])):
+            sreqs += [{"op": "dg.subset", "learned": a["blk"], "source": b["blk"], "k": 2, "cap": 200},
+                      {"op": "dg.subset", "learned": b["blk"], "source": a["blk"], "k": 2, "cap": 200}]
+            smeta += [(i, n), (i, n)]
+    for (i, n), a in zip(smeta, pvlib.lean(sreqs) if sreqs else []):
+        if a.get("rejected"):
+            job = [(x["typ"], x["prev"]) for x in (a.get("first_rejected") or [])]
+            cases[i]["bad"] = cases[i]["bad"] or (f"workflow {n!r}: otel2puml and otel2pv+pv2puml give diagrams "
+                                                  f"with different languages, e.g. {job}")
 
 
 def run(ctx: Ctx) -> None:
@@ -257,155 +417,7 @@ def run(ctx: Ctx) -> None:
     try:
         same_process_part(ctx, tmp, quick)
         cases = [gen_case(ctx, k) for k in range(24 if quick else 200)]
-        for c in cases:
-            c["paths"] = write_inputs(tmp, c)
-        # route 1, route 2a, and the in-memory stream
-        reqs = []
-        for c in cases:
-            p = c["paths"]
-            mc = ["-mc", p["mapping"]] if "mapping" in p else []
-            reqs.append({"op": "cli", "argv": ["-o", os.path.join(p["dir"], "out1"), "otel2puml", "-om", "-c", p["config"]],
-                         "hash_seed": 0, "timeout": 120})
-            reqs.append({"op": "cli", "argv": ["-o", os.path.join(p["dir"], "out2"), "otel2pv", "-c", p["config"], "-se"] + mc,
-                         "hash_seed": 0, "timeout": 120})
-            reqs.append({"op": "otel_to_pv", "config": p["config"], "hash_seed": 0, "timeout": 120})
-        reps = pvlib.run_requests(reqs)
-        for i, c in enumerate(cases):
-            c["r1"], c["r2a"], c["mem"] = reps[3 * i], reps[3 * i + 1], reps[3 * i + 2]
-        # route 2b: pv2puml per workflow folder
-        reqs, meta = [], []
-        for i, c in enumerate(cases):
-            p = c["paths"]
-            mc = ["-mc", p["mapping"]] if "mapping" in p else []
-            for n in c["names"]:
-                folder = os.path.join(p["dir"], "out2", n)
-                if os.path.isdir(folder):
-                    reqs.append({"op": "cli", "argv": ["-o", os.path.join(p["dir"], "out3"), "pv2puml", "-om", "-fp", folder,
-                                                       "-jn", n] + mc, "hash_seed": 0, "timeout": 120})
-                    meta.append((i, n))
-        reps = pvlib.run_requests(reqs)
-        for (i, n), rp in zip(meta, reps):
-            cases[i].setdefault("r2b", {})[n] = rp
-        # the saved files read back by the project's own loader
-        reqs = []
-        for c in cases:
-            fl = []
-            for n in c["names"]:
-                folder = os.path.join(c["paths"]["dir"], "out2", n)
-                fl += [os.path.join(folder, fn) for fn in sorted(os.listdir(folder))] if os.path.isdir(folder) else []
-            reqs.append({"op": "load_pv_files", "files": fl, "mapping": c["mapping"], "hash_seed": 0, "timeout": 60})
-        for c, rp in zip(cases, pvlib.run_requests(reqs)):
-            c["readback"] = rp
-        # collect
-        lean_reqs, lmeta = [], []
-        for i, c in enumerate(cases):
-            p = c["paths"]
-            c["bad"] = None
-            if c["reorder"] and ("error" in c["r1"] or c["r1"].get("exit")) and not (
-                    "error" in c["r2a"] or c["r2a"].get("exit") or "error" in c["mem"]):
-                ctx.tick("reorder_learner_failed_in_otel2puml")
-                c["r1"] = {"exit": 0, "learner_failed": True}
-            if "error" in c["r1"] or c["r1"].get("exit") or "error" in c["r2a"] or c["r2a"].get("exit") or "error" in c["mem"]:
-                c["bad"] = (f"a route failed: otel2puml {c['r1'].get('error') or c['r1'].get('exit')}, otel2pv "
-                            f"{c['r2a'].get('error') or c['r2a'].get('exit')}, in-memory {c['mem'].get('error')}: "
-                            f"{(c['r1'].get('output') or '')[-200:]} {(c['r2a'].get('output') or '')[-200:]}")
-                continue
-            mp = c["mapping"] or {f: f for f in FIELDS}
-            mem: dict[str, list[list[dict[str, Any]]]] = {}
-            for name, job in c["mem"]["jobs"]:
-                mem.setdefault(name, []).append(sorted(job, key=lambda e: str(e.get("eventId"))))
-            files: dict[str, list[list[dict[str, Any]]]] = {}
-            raw_objs: list[dict[str, Any]] = []
-            for n in c["names"]:
-                folder = os.path.join(p["dir"], "out2", n)
-                for fn in sorted(os.listdir(folder)) if os.path.isdir(folder) else []:
-                    with open(os.path.join(folder, fn)) as f:
-                        objs = json.load(f)
-                    raw_objs += objs
-                    files.setdefault(n, []).append(sorted(({k: o.get(mp[k], [] if k == "previousEventIds" else None)
-                                                            for k in FIELDS} for o in objs), key=lambda e: str(e.get("eventId"))))
-            key = lambda j: str(j[0].get("jobId")) if j else ""  # noqa: E731
-            if {n: sorted(v, key=key) for n, v in mem.items()} != {n: sorted(v, key=key) for n, v in files.items()}:
-                c["bad"] = "the saved PV files do not hold the events, links and field values of the in-memory stream"
-                continue
-            rb = c["readback"]
-            if "error" in rb:
-                c["bad"] = f"the saved PV files cannot be read back by pv_job_file_to_event_sequence: {rb['error'][:200]}"
-                continue
-            rbj = sorted((sorted(({k: e.get(k, []) for k in FIELDS} for e in j), key=lambda e: str(e.get("eventId")))
-                          for j in rb["jobs"]), key=key)
-            memj = sorted((j for js in mem.values() for j in js), key=key)
-            if rbj != [[{k: e.get(k, []) for k in FIELDS} for e in j] for j in memj]:
-                c["bad"] = ("the saved PV files, read back with the same mapping by the project's loader, do not give the "
-                            "events, links and field values of the in-memory stream")
-                continue
-            c["raw_objs"] = raw_objs
-            c["mem_events"] = [e for js in mem.values() for j in js for e in j]
-            lean_reqs.append({"op": "pvfile.roundtrip", "cfg": [mp[k] for k in CFG_ORDER],
-                              "events": c["mem_events"]})
-            lmeta.append(i)
-            for n in c["names"]:
-                f1 = os.path.join(p["dir"], "out1", n.replace(" ", "_") + ".puml")
-                f3 = os.path.join(p["dir"], "out3", n.replace(" ", "_") + ".puml")
-                r2b = c.get("r2b", {}).get(n, {"error": "no saved folder"})
-                m1, m3 = f1[:-5] + "_model.json", f3[:-5] + "_model.json"
-                if os.path.exists(m1) and os.path.exists(m3):
-                    with open(m1) as fa, open(m3) as fb:
-                        ma, mb = json.load(fa), json.load(fb)
-                    ctx.tick("model_files_compared")
-                    if canon_file(ma) != canon_file(mb) or ma.get("job_name") != mb.get("job_name"):
-                        c["bad"] = (f"workflow {n!r}: the model file saved by otel2puml and the one saved by pv2puml on "
-                                    f"the saved PV files differ (types, successor/predecessor sets or counts)")
-                        break
-                if c["reorder"]:
-                    if c["r1"].get("learner_failed") or "error" in r2b or r2b.get("exit"):
-                        ctx.tick("reorder_learner_failed")
-                    continue
-                if "error" in r2b or r2b.get("exit") or not os.path.exists(f1) or not os.path.exists(f3):
-                    c["bad"] = (f"workflow {n!r}: pv2puml on the saved files failed or a diagram is missing "
-                                f"({r2b.get('error') or r2b.get('exit')}; {str(r2b.get('output'))[-200:]})")
-                    break
-                c.setdefault("texts", {})[n] = (open(f1).read(), open(f3).read())
-        lres = pvlib.lean(lean_reqs) if lean_reqs else []
-        for i, lr in zip(lmeta, lres):
-            c = cases[i]
-            if "error" in lr:
-                ctx.broken_ties.append(f"model driver: {lr['error']}")
-                continue
-            want = sorted((json.dumps(o, sort_keys=True) for o in c["raw_objs"]))
-            got = sorted((json.dumps(o, sort_keys=True) for o in lr["saved"]))
-            if want != got:
-                ctx.violation("correspondence: Lean save model and the saved PV objects differ",
-                              {"input": {"mapping": c["mapping"]}, "model": lr["saved"][:3], "impl": c["raw_objs"][:3]},
-                              key=("corr", c["k"]), concrete=False)
-            elif sorted(json.dumps(e, sort_keys=True) for e in lr["loaded"]) != \
-                    sorted(json.dumps({k: e[k] for k in FIELDS}, sort_keys=True) for e in c["mem_events"]):
-                ctx.violation("correspondence: Lean load model does not return the in-memory events",
-                              {"input": {"mapping": c["mapping"]}, "model": lr["loaded"][:3]}, key=("corrl", c["k"]),
-                              concrete=False)
-        # diagrams
-        preqs, pmeta = [], []
-        for i, c in enumerate(cases):
-            for n, (t1, t3) in c.get("texts", {}).items():
-                preqs += [{"op": "dg.parse", "text": t1}, {"op": "dg.parse", "text": t3}]
-                pmeta.append((i, n))
-        pres = pvlib.lean(preqs) if preqs else []
-        sreqs, smeta = [], []
-        ctx.cov["diagram_pairs_compared"] = len(pmeta)
-        for k, (i, n) in enumerate(pmeta):
-            a, b = pres[2 * k], pres[2 * k + 1]
-            c = cases[i]
-            if a.get("ok") != b.get("ok"):
-                c["bad"] = c["bad"] or f"workflow {n!r}: only one of the two routes gives a well-formed diagram"
-            elif a.get("ok") and json.dumps(norm_blk(a["blk"])) != json.dumps(norm_blk(b["blk"])):
-                sreqs += [{"op": "dg.subset", "learned": a["blk"], "source": b["blk"], "k": 2, "cap": 200},
-                          {"op": "dg.subset", "learned": b["blk"], "source": a["blk"], "k": 2, "cap": 200}]
-                smeta += [(i, n), (i, n)]
-        for (i, n), a in zip(smeta, pvlib.lean(sreqs) if sreqs else []):
-            if a.get("rejected"):
-                job = [(x["typ"], x["prev"]) for x in (a.get("first_rejected") or [])]
-                cases[i]["bad"] = cases[i]["bad"] or (f"workflow {n!r}: otel2puml and otel2pv+pv2puml give diagrams "
-                                                      f"with different languages, e.g. {job}")
+        evaluate(ctx, cases, tmp)
         for c in cases:
             if ctx.too_many():
                 break
@@ -415,7 +427,8 @@ def run(ctx: Ctx) -> None:
                      if ctx.cov["evaluations"] % 7 == 0 else None)
             if c["bad"]:
                 ctx.violation(c["bad"], {"input": {"spans": c["spans"], "names": c["names"], "mapping": c["mapping"],
-                                                   "async": c["async"], "sequencer": c.get("seq_opts")}})
+                                                   "async": c["async"], "sequencer": c.get("seq_opts"),
+                                                   "reorder": c["reorder"]}})
     finally:
         shutil.rmtree(tmp, ignore_errors=True)
     ctx.assumptions += [
@@ -426,6 +439,37 @@ def run(ctx: Ctx) -> None:
     ]
 
 
+class _Quiet:
+    """what evaluate() needs of a Ctx when one recorded case is replayed"""
+
+    def __init__(self) -> None:
+        self.cov: dict[str, Any] = {}
+        self.broken_ties: list[str] = []
+        self.said: list[str] = []
+
+    def tick(self, *_: Any) -> None:
+        pass
+
+    def violation(self, what: str, *_: Any, **__: Any) -> None:
+        self.said.append(what)
+
+
 def replay(data: dict[str, Any]) -> int:
-    print("replay: re-run `check.py C14` with the recorded seed; the case is", json.dumps(data["input"])[:400])
-    return 1
+    inp = data["input"]
+    tmp = tempfile.mkdtemp(prefix="o2p14r_")
+    try:
+        if inp.get("same_process"):
+            bad, _ = same_process_case(tmp, inp["spans"], inp["names"][0], inp["names"][1], 1)
+        elif "spans" not in inp:
+            print("correspondence case: re-run `check.py C14` with the recorded seed")
+            return 1
+        else:
+            c = {"names": inp["names"], "spans": inp["spans"], "async": inp["async"], "mapping": inp.get("mapping"),
+                 "k": 1, "reorder": bool(inp.get("reorder")), "seq_opts": inp.get("sequencer") or {}}
+            q = _Quiet()
+            evaluate(q, [c], tmp)
+            bad = c["bad"] or (q.said[0] if q.said else None)
+    finally:
+        shutil.rmtree(tmp, ignore_errors=True)
+    print(bad or "ok")
+    return 1 if bad else 0
